@@ -489,6 +489,10 @@ func (te *TEnv) step(cur TV, fi int) TV {
 	if p, ok := gt.Underlying().(*types.Pointer); ok {
 		si := reg.structInfoOf(p.Elem())
 		if si == nil {
+			if key, vsort, ftyp, ok := reg.opaqueField(p.Elem(), fi); ok {
+				h := vc.heapGet(te.st, key, "(Array Int "+vsort+")")
+				return TV{t: "(select " + h + " " + cur.t + ")", sort: vsort, gt: ftyp}
+			}
 			return TV{}
 		}
 		t := vc.readField(te.st, cur.t, si, fi)
